@@ -12,7 +12,7 @@ RULE = ("one contract family per case (reputation, audit, container size estimat
         "mutating operation. distinct_nontrivial = distinct (operation, observation) pairs of HALTed invocations")
 PROPS = {
     "C20": dict(lean=["NeoFS.Props.C20"], driver="drv_stores", harness="stores", monitors=["C20"],
-                shards=dict(quick=1, thorough=16), rule=RULE, facts=["consts"],
+                shards=dict(quick=1, thorough=16), rule=RULE, facts=["consts", "footprint"],
                 assumptions=["storage.Put FAULTs for keys longer than 64 bytes (neo-go MaxStorageKeyLen)",
                              "SHA-256 / RIPEMD-160 digests are supplied on the operation line and treated as opaque byte strings",
                              "netmap.snapshot(1), netmap.epoch and roles.getDesignatedByRole(NeoFSAlphabet) are environment parameters read from the chain before the operation"]),
